@@ -219,10 +219,34 @@ ADAPTERS = {
     "step": lambda a: StepTime(a[1] if len(a) > 1 else 0.5),
     "avg": lambda a: AvgOverTime(step=a[1] if len(a) > 1 else None),
     "sum": lambda a: SumOverTime(step=a[1] if len(a) > 1 else 0.0, per_time=False),
-    "dfix": lambda a: DelayFixed(H(a[1])),
+    "dfix": lambda a: UserDelay(H(a[1])) if (len(a) > 2 and a[2] == "user") else DelayFixed(H(a[1])),
     "dpull": lambda a: DelayToPull(steps=a[1], additional_delay=H(a[2])),
     "dpush": lambda a: DelayToPush(),
 }
+class UserDelay(fm.Adapter, fm.ITimeDelayAdapter):
+    """a fixed delay written by a user from the public interfaces only (no SDK delay base class):
+    same shifting rule as the shipped fixed delay"""
+
+    def __init__(self, delay):
+        super().__init__()
+        self.delay = delay
+        self._first = None
+
+    def _get_info(self, info):
+        in_info = self.exchange_info(info)
+        self._first = in_info.time
+        return in_info
+
+    def with_delay(self, time):
+        if self._first is None:
+            raise fm.FinamNoDataError("metadata not exchanged yet")
+        off = time - self.delay
+        return min(time, self._first) if off < self._first else off
+
+    def _get_data(self, time, target):
+        return self.pull_data(self.with_delay(time), target)
+
+
 PUSH_BASED = ("lin", "next", "prev", "step", "avg", "sum")
 DELAYS = ("dfix", "dpull", "dpush")
 
@@ -300,18 +324,24 @@ def build(spec, cap=None, memory=None, location="spill"):
     b.composition = fm.Composition([objs[i] for i in order], print_log=False, log_level=logging.CRITICAL + 10, **kw)
     link_order = spec.get("link_order") or list(range(len(spec["links"])))
     trunk_end = {}
-    for tid, tr in sorted((spec.get("trunks") or {}).items()):
-        # a trunk is a chain of branch-capable adapters below an output that several links share
-        x = b.comps[tr["src"][0]].outputs[f"out{tr['src'][1]}"]
-        for pos, a in enumerate(tr["chain"]):
-            ada = mk_adapter(a, f"T{tid}.a{pos}:{a[0]}")
-            b.adapters.append((f"T{tid}", pos, a, ada))
-            x = x >> ada
-        trunk_end[str(tid)] = x
+
+    def trunk(tid):
+        # a trunk is a chain of branch-capable adapters below an output that several links share; it is
+        # created when the first link using it is created (so link order also permutes trunk creation)
+        if tid not in trunk_end:
+            tr = spec["trunks"][tid] if tid in spec["trunks"] else spec["trunks"][int(tid)]
+            x = b.comps[tr["src"][0]].outputs[f"out{tr['src'][1]}"]
+            for pos, a in enumerate(tr["chain"]):
+                ada = mk_adapter(a, f"T{tid}.a{pos}:{a[0]}")
+                b.adapters.append((f"T{tid}", pos, a, ada))
+                x = x >> ada
+            trunk_end[tid] = x
+        return trunk_end[tid]
+
     def make_link(li):
         ln = spec["links"][li]
         if ln.get("trunk") is not None:
-            x = trunk_end[str(ln["trunk"])]
+            x = trunk(str(ln["trunk"]))
         else:
             x = b.comps[ln["src"][0]].outputs[f"out{ln['src'][1]}"]
         for pos, a in enumerate(ln["chain"]):
